@@ -951,6 +951,108 @@ Section Calm.
       rewrite (RA _ _ _ _ (calm_step_run o w C)). exact R.
   Qed.
 
+  (* ---------- a decision procedure for [calm], to find calm states in recorded histories of the real operator ---------- *)
+  Definition hst_eq (a b : hst) : bool :=
+    match a, b with
+    | HOpen r d, HOpen r' d' => Nat.eqb r r' && Nat.eqb d d'
+    | HDone x, HDone y => Bool.eqb x y
+    | _, _ => false
+    end.
+
+  Fixpoint recs_eq (a b : recs) : bool :=
+    match a, b with
+    | [], [] => true
+    | (k, v) :: a', (k', v') :: b' => Nat.eqb k k' && hst_eq v v' && recs_eq a' b'
+    | _, _ => false
+    end.
+
+  Definition opt_eq (a b : option nat) : bool :=
+    match a, b with Some x, Some y => Nat.eqb x y | None, None => true | _, _ => false end.
+
+  Definition obj_eq (a b : obj) : bool :=
+    Nat.eqb (o_rv a) (o_rv b) && Nat.eqb (o_ess a) (o_ess b) && opt_eq (o_last a) (o_last b)
+    && recs_eq (o_recs a) (o_recs b) && Bool.eqb (o_fin a) (o_fin b) && Bool.eqb (o_dummy a) (o_dummy b).
+
+  Lemma hst_eq_sound a b : hst_eq a b = true -> a = b.
+  Proof.
+    destruct a as [r d|x], b as [r' d'|y]; cbn; try discriminate.
+    - intro H. apply andb_true_iff in H. destruct H as (A & B). apply Nat.eqb_eq in A, B. congruence.
+    - intro H. apply Bool.eqb_prop in H. congruence.
+  Qed.
+
+  Lemma recs_eq_sound a b : recs_eq a b = true -> a = b.
+  Proof.
+    revert b. induction a as [|[k v] a IH]; intros [|[k' v'] b]; cbn; try discriminate; [reflexivity|].
+    intro H. apply andb_true_iff in H. destruct H as (H & R). apply andb_true_iff in H. destruct H as (K & V).
+    apply Nat.eqb_eq in K. apply hst_eq_sound in V. rewrite (IH b R). congruence.
+  Qed.
+
+  Lemma obj_eq_sound a b : obj_eq a b = true -> a = b.
+  Proof.
+    unfold obj_eq. intro H. repeat (apply andb_true_iff in H; destruct H as (H & ?)).
+    destruct a, b. cbn in *.
+    match goal with X : recs_eq _ _ = true |- _ => apply recs_eq_sound in X end.
+    repeat match goal with X : Nat.eqb _ _ = true |- _ => apply Nat.eqb_eq in X end.
+    repeat match goal with X : Bool.eqb _ _ = true |- _ => apply Bool.eqb_prop in X end.
+    match goal with X : opt_eq ?x ?y = true |- _ =>
+      assert (x = y) by (destruct x, y; cbn in X; try discriminate; [apply Nat.eqb_eq in X; congruence|reflexivity]) end.
+    congruence.
+  Qed.
+
+  Definition calmb (w : world) : bool :=
+    let m := w_mem w in let s := w_srv w in
+    m_up m
+    && match m_carried m with [] => true | _ => false end
+    && Bool.eqb (w_need_fin w) (o_fin s)
+    && match m_queue m with [] => true | [v] => obj_eq v s | _ => false end
+    && match m_expected m with
+       | None => true
+       | Some (rv, _) => Nat.eqb rv (o_rv s) && match m_queue m with [v] => obj_eq v s | _ => false end
+       end
+    && forallb (fun h => match rget h (o_recs s) with None => true | Some _ => existsb (Nat.eqb h) (selected s) end) owned
+    && match m_queue m with
+       | [] => match m_timer m with
+               | Some t => existsb (fun h => match hstate 0 s h with HOpen _ d => d <=? t | HDone _ => false end) (selected s)
+               | None => settled s
+               end
+       | _ => true
+       end.
+
+  Lemma calmb_sound w : calmb w = true -> calm w.
+  Proof.
+    unfold calmb. cbn zeta. intro H.
+    apply andb_true_iff in H. destruct H as (H & H7). apply andb_true_iff in H. destruct H as (H & H6).
+    apply andb_true_iff in H. destruct H as (H & H5). apply andb_true_iff in H. destruct H as (H & H4).
+    apply andb_true_iff in H. destruct H as (H & H3). apply andb_true_iff in H. destruct H as (H1 & H2).
+    assert (Q : m_queue (w_mem w) = [] \/ m_queue (w_mem w) = [w_srv w]).
+    { destruct (m_queue (w_mem w)) as [|v [|v' q]]; [left; reflexivity| |discriminate]. right. apply obj_eq_sound in H4. congruence. }
+    constructor.
+    - exact H1.
+    - destruct (m_carried (w_mem w)); [reflexivity|discriminate].
+    - apply Bool.eqb_prop. exact H3.
+    - exact Q.
+    - destruct (m_expected (w_mem w)) as [[rv dl]|]; [|left; reflexivity]. right.
+      apply andb_true_iff in H5. destruct H5 as (A & B). apply Nat.eqb_eq in A. subst rv. exists dl. split; [reflexivity|].
+      destruct (m_queue (w_mem w)) as [|v [|v' q]]; try discriminate. apply obj_eq_sound in B. congruence.
+    - intros h Ih R. rewrite forallb_forall in H6. specialize (H6 h Ih).
+      destruct (rget h (o_recs (w_srv w))); [|congruence].
+      apply existsb_exists in H6. destruct H6 as (y & Iy & Ey). apply Nat.eqb_eq in Ey. subst y. exact Iy.
+    - intros Q0 t TM. rewrite Q0, TM in H7. apply existsb_exists in H7. destruct H7 as (h & Ih & B).
+      destruct (hstate 0 (w_srv w) h) as [r d|] eqn:Hs; [|discriminate]. apply Nat.leb_le in B. exists h, r, d. tauto.
+    - intros Q0 TM. rewrite Q0, TM in H7. exact H7.
+  Qed.
+
+  (* how many states of a recorded history are calm *)
+  Fixpoint calm_hits (w : world) (its : list item) : nat :=
+    match its with
+    | [] => 0
+    | L l :: r => match step w l with
+                  | Some w' => (if calmb w' then 1 else 0) + calm_hits w' r
+                  | None => 0
+                  end
+    | Check _ :: r => calm_hits w r
+    end.
+
   (* ---------- all of it together ---------- *)
   Theorem calm_convergence w (failing : list (hid -> outcome)) :
     calm w ->
